@@ -409,6 +409,32 @@ pub fn run(ctx: &mut Ctx) {
                 hist.push("adv: inner by foreign key, outer by victim".into());
                 ctx.count("adv_mixed_wrapper");
             }
+            8 => {
+                // every metadata signature object gets its OUTER 'signed' assertion decorated (a salt on that
+                // assertion): the signatures stay what they were
+                let mut changed = false;
+                for sa in e.assertions_with_predicate(known_values::SIGNED) {
+                    if let Some(so) = sa.as_object() {
+                        if so.subject().is_wrapped() {
+                            let outers = so.assertions_with_predicate(known_values::SIGNED);
+                            if let Some(oa) = outers.first() {
+                                if oa.assertions().is_empty() {
+                                    if let Ok(so2) = so.replace_assertion(oa.clone(), oa.add_salt()) {
+                                        if let Ok(e2) = e.replace_assertion(sa.clone(), Envelope::new_assertion(known_values::SIGNED, so2)) {
+                                            e = e2;
+                                            changed = true;
+                                        }
+                                    }
+                                }
+                            }
+                        }
+                    }
+                }
+                if changed {
+                    hist.push("adv: outer 'signed' assertion of metadata wrappers decorated".into());
+                    ctx.count("adv_decorated_outer_signed");
+                }
+            }
             _ => {}
         }
         // other assertions added after signing
